@@ -77,6 +77,8 @@ func runJob(j Job) *Stats {
 		return typesPass(j.Cfg, j.Types, j.Mons)
 	case "pileup":
 		return pilePass(j.Mons)
+	case "closers":
+		return closersPass(j.Mons)
 	case "twins":
 		return twinsPass(j.Mons, j.Depth)
 	case "lits":
@@ -201,6 +203,26 @@ func scalePass(cfg Config, mons map[string]bool, n int, scenario string) *Stats 
 			h = append(h, push(5, "mid"), Op{Code: opMaintain}, Op{Code: opClose})
 			return h
 		})
+	case "aged":
+		// (i) an object that has already handled n events (counters of events, records, callbacks have advanced past
+		// n) is then driven through a chain of 40 incomplete events created 3 ticks apart with a timeout of 4 ticks and a
+		// Maintain 2 ticks after each: the previous event (age 5) is due, the newest (age 2) is not
+		mk("n delivered events; chain of 40 incomplete events 3 ticks apart, Maintain 2 ticks after each; Close", func() []Op {
+			var h []Op
+			s := 0
+			for i := 0; i < n; i++ {
+				if i%7 == 3 {
+					s++ // a gap now and then: the loss counter ages, too
+				}
+				h = append(h, push(s, "fin"))
+				s++
+			}
+			for i := 0; i < 40; i++ {
+				h = append(h, push(s+i, "mid"), Op{Code: opTick, Delta: 2}, Op{Code: opMaintain}, Op{Code: opTick, Delta: 1})
+			}
+			h = append(h, Op{Code: opClose})
+			return h
+		})
 	case "fill":
 		// (f) exactly maxInFlight incomplete events may sit in the buffer: none is delivered before Close
 		mk("maxInFlight incomplete events; Maintain; Close", func() []Op {
@@ -298,7 +320,7 @@ func buildJobs(prop, tier string) []interface{} {
 	bases := []uint32{5, 0, 1<<32 - 3}
 	offs := []uint32{0, 1, 2, 4}
 	kinds := []string{"mid", "midRaw", "fin", "eoe", "nil"}
-	maxStates := int64(1_000_000)
+	maxStates := int64(400_000) // three times the largest closure of the quick tier on the tree as it is
 	if thorough {
 		maxIn = []int{0, 1, 2, 3, 4}
 		bases = []uint32{5, 0, 1<<32 - 3, 1<<24 - 2, 1<<31 - 2, 1<<31 - 5, 1<<16 - 2}
@@ -390,6 +412,14 @@ func buildJobs(prop, tier string) []interface{} {
 	jobs = append(jobs, Job{Mode: "scale", Scenario: "gaps-one-push", N: 3000, Cfg: Config{MaxInFlight: 5000, TimeoutTicks: farTimeout, Base: 1<<32 - 1000, Offsets: []uint32{0}, Kinds: []string{"mid"}, MaxRecs: 3, PostClose: 1}})
 	jobs = append(jobs, Job{Mode: "scale", Scenario: "huge-event", N: big, Cfg: Config{MaxInFlight: 5, TimeoutTicks: farTimeout, Base: 5, Offsets: []uint32{0}, Kinds: []string{"mid"}, MaxRecs: 3, PostClose: 1}})
 	jobs = append(jobs, Job{Mode: "scale", Scenario: "fill", N: big, Cfg: Config{MaxInFlight: big, TimeoutTicks: farTimeout, Base: 5, Offsets: []uint32{0}, Kinds: []string{"mid"}, MaxRecs: 3, PostClose: 1}})
+	// the widths of small integer types (2^8, 2^16): indexes, counters and offsets kept in a uint8 / uint16 wrap there.
+	// No literal names such a limit, so it is part of the fixed menu: buffers just above it, objects aged just below it
+	for _, w := range []int{256, 65536} {
+		jobs = append(jobs, Job{Mode: "scale", Scenario: "fill", N: w + 500, Cfg: Config{MaxInFlight: w + 1000, TimeoutTicks: farTimeout, Base: 5, Offsets: []uint32{0}, Kinds: []string{"mid"}, MaxRecs: 3, PostClose: 1}})
+		jobs = append(jobs, Job{Mode: "scale", Scenario: "aged", N: w - 20, Cfg: Config{MaxInFlight: 5, TimeoutTicks: 4, Base: 5, Offsets: []uint32{0}, Kinds: []string{"mid"}, MaxRecs: 3, PostClose: 1}})
+		jobs = append(jobs, Job{Mode: "scale", Scenario: "middle-insert", N: w + 500, Cfg: Config{MaxInFlight: w + 1000, TimeoutTicks: farTimeout, Base: 1<<32 - 700, Offsets: []uint32{0}, Kinds: []string{"mid"}, MaxRecs: 3, PostClose: 1}})
+		jobs = append(jobs, Job{Mode: "scale", Scenario: "gaps-one-maintain", N: w + 500, Cfg: Config{MaxInFlight: w + 1000, TimeoutTicks: 2, Base: 5, Offsets: []uint32{0}, Kinds: []string{"mid"}, MaxRecs: 3, PostClose: 1}})
+	}
 	jobs = append(jobs, Job{Mode: "scale", Scenario: "middle-insert", N: 3000, Cfg: Config{MaxInFlight: 5000, TimeoutTicks: farTimeout, Base: 5, Offsets: []uint32{0}, Kinds: []string{"mid"}, MaxRecs: 3, PostClose: 1}})
 	// thresholds written into the tree under test (batch limits, per-event record limits, look-back
 	// windows ...): every integer constant 64..100000 found in reassembler.go gets its own scale scenarios
@@ -467,6 +497,50 @@ func buildJobs(prop, tier string) []interface{} {
 		cfg := Config{MaxInFlight: m, TimeoutTicks: farTimeout, Base: 1000, Offsets: []uint32{0, 1, 5}, Kinds: []string{"mid", "fin", "eoe"}, MaxRecs: 2, PostClose: 1, Recycle: true}
 		jobs = append(jobs, Job{Mode: "bfs", Cfg: cfg, MaxStates: maxStates})
 	}
+	// a Stream that uses the slice it is handed as its own (appends into spare capacity, clears the elements)
+	for _, m := range []int{1, 2, 3} {
+		cfg := Config{MaxInFlight: m, TimeoutTicks: farTimeout, Base: 5, Offsets: []uint32{0, 1, 2, 4}, Kinds: []string{"mid", "fin", "eoe"}, MaxRecs: 2, PostClose: 1, StreamOwnsSlice: true}
+		jobs = append(jobs, Job{Mode: "bfs", Cfg: cfg, MaxStates: maxStates})
+	}
+	jobs = append(jobs, Job{Mode: "bfs", Cfg: Config{MaxInFlight: 2, TimeoutTicks: 2, Base: 5, Offsets: []uint32{0, 1, 2}, Kinds: []string{"mid", "fin"}, Ticks: []int{3}, MaxRecs: 2, PostClose: 1, StreamOwnsSlice: true}, MaxStates: maxStates})
+	// sequence numbers that are congruent modulo a number derived from the configuration (k*(maxInFlight+d), the
+	// sizes of tables, rings and bitmaps dimensioned by it) or modulo a power of two: two buffered events that share
+	// a slot / bit / bucket
+	for _, m := range []int{1, 2, 4} {
+		var mods []uint32
+		for _, k := range []uint32{1, 2, 8, 16, 32, 64, 128, 256} {
+			for d := 0; d <= 2; d++ {
+				mods = append(mods, k*uint32(m+d))
+			}
+		}
+		for p := uint(3); p <= 20; p++ {
+			mods = append(mods, 1<<p)
+		}
+		seen := map[uint32]bool{}
+		for _, M := range mods {
+			if seen[M] || M < 3 {
+				continue
+			}
+			seen[M] = true
+			if !thorough && m == 4 && M%uint32(m+1) != 0 && M&(M-1) != 0 {
+				continue
+			}
+			cfg := Config{MaxInFlight: m, TimeoutTicks: farTimeout, Base: 7, Offsets: []uint32{0, 1, M, M + 1, 2 * M}, Kinds: []string{"mid", "eoe"}, MaxRecs: 2, PostClose: 1}
+			jobs = append(jobs, Job{Mode: "bfs", Cfg: cfg, MaxStates: maxStates})
+		}
+	}
+	// records with the text a kernel writes (a SYSCALL announcing items=2, PATH records, an EXECVE announcing argc=3,
+	// PROCTITLE), through both entry points
+	for _, m := range []int{1, 2} {
+		jobs = append(jobs, Job{Mode: "bfs", Cfg: Config{MaxInFlight: m, TimeoutTicks: farTimeout, Base: 5, Offsets: []uint32{0, 1}, Kinds: []string{"sysItems", "pathBody", "execveBody", "finBody", "eoe"}, MaxRecs: 3, PostClose: 1}, MaxStates: maxStates})
+		jobs = append(jobs, Job{Mode: "bfs", Cfg: Config{MaxInFlight: m, TimeoutTicks: 2, Base: 5, Offsets: []uint32{0, 1}, Kinds: []string{"sysItemsRaw", "pathBodyRaw", "finBodyRaw", "eoeRaw"}, Ticks: []int{3}, MaxRecs: 3, PostClose: 1}, MaxStates: maxStates})
+	}
+	// raw records whose headers are textually related: same time stamp, one sequence number a decimal prefix of the
+	// other (1, 10, 12, 100, 1000), one a suffix (2, 12), equal digits in other positions
+	for _, m := range []int{2, 3} {
+		jobs = append(jobs, Job{Mode: "bfs", Cfg: Config{MaxInFlight: m, TimeoutTicks: farTimeout, Base: 1, Offsets: []uint32{0, 1, 9, 11, 99}, Kinds: []string{"midRaw", "finRaw", "eoeRaw"}, MaxRecs: 2, PostClose: 1}, MaxStates: maxStates})
+	}
+	jobs = append(jobs, Job{Mode: "bfs", Cfg: Config{MaxInFlight: 2, TimeoutTicks: farTimeout, Base: 504, Offsets: []uint32{0, 1, 5040 - 504, 50406 - 504}, Kinds: []string{"midRaw", "finRaw"}, MaxRecs: 2, PostClose: 1}, MaxStates: maxStates})
 	// two Reassemblers in one process, each with the selected monitor
 	twinDepth := 6
 	if thorough {
@@ -480,6 +554,9 @@ func buildJobs(prop, tier string) []interface{} {
 			cfg := Config{MaxInFlight: m, TimeoutTicks: farTimeout, Base: 5, Offsets: []uint32{0, 1, 2, 4, 5}, Kinds: []string{"mid", "fin", "eoe"}, MaxRecs: 2, PostClose: 1, Reenter: true}
 			jobs = append(jobs, Job{Mode: "bfs", Cfg: cfg, MaxStates: maxStates})
 		}
+	}
+	if prop == "C19" {
+		jobs = append(jobs, Job{Mode: "closers"})
 	}
 	if prop == "C01" {
 		jobs = append(jobs, Job{Mode: "pileup"})
